@@ -117,6 +117,9 @@ def _install_once():
     m.nodeio.open = seams.sim_open
     if hasattr(m.nodeio, 'os'):
         m.nodeio.os = seams._OsForNodeio()
+    # file access that goes through shutil (copy fallback of shutil.move,
+    # shutil.copy) is seen by the same seam
+    shutil.open = seams.sim_open
     base = '/dev/shm' if os.path.isdir('/dev/shm') else tempfile.gettempdir()
     _SANDBOX = os.path.join(base, f'dst-{os.getpid()}')
     shutil.rmtree(_SANDBOX, ignore_errors=True)
@@ -331,6 +334,27 @@ def execute(spec):
         atexit_cbs.append((func, a, k))
         return func
 
+    real_rename, real_replace = os.rename, os.replace
+    if spec.get('xdev'):
+        # the temporary directory lives on another file system than the
+        # output file: renames between the two fail with EXDEV
+        def _xdev(fn):
+            def f(src, dst, *a, **k):
+                try:
+                    s_, d_ = os.path.abspath(os.fspath(src)), os.path.abspath(
+                        os.fspath(dst))
+                except TypeError:
+                    return fn(src, dst, *a, **k)
+                s_in = '/ddsmt-' in s_
+                d_in = '/ddsmt-' in d_
+                if s_in != d_in:
+                    rec.count('fault.exdev')
+                    raise OSError(errno.EXDEV, os.strerror(errno.EXDEV), s_,
+                                  None, d_)
+                return fn(src, dst, *a, **k)
+            return f
+        os.rename = _xdev(real_rename)
+        os.replace = _xdev(real_replace)
     saved_argv = sys.argv
     sys.argv = argv
     import multiprocessing
@@ -388,6 +412,7 @@ def execute(spec):
             res.outcome = 'harness:shutdown ' + repr(e)
         if spec.get('jump_budget'):
             _enable_jump_budget(0)
+        os.rename, os.replace = real_rename, real_replace
         sys.argv = saved_argv
         multiprocessing.set_start_method = saved_ssm
         atexit.register = real_register
